@@ -2,7 +2,7 @@
 C09 — the parser is total and literals round-trip through quoting.
 
 Only statements live here; proofs are in CueVerif/Proofs/{Utf8,Quote,QuoteHash,QuoteAscii,
-QuoteMain,NumLit,Ident}.lean.  The models transcribe cue/literal/{quote,string,num}.go,
+QuoteMain,QuoteMulti,NumLit,Ident}.lean.  The models transcribe cue/literal/{quote,string,num}.go,
 cue/scanner/scanner.go (number and identifier lexing) and cue/ast/ident.go.
 
 Conventions: Go strings are byte lists (`IsBytes`); `E : Env` carries `strconv.IsPrint` /
@@ -16,6 +16,7 @@ they are the executable predicate of harness/c09.go evaluated on the implementat
 -/
 import CueVerif.Spec.Quote
 import CueVerif.Proofs.QuoteMain
+import CueVerif.Proofs.QuoteMulti
 import CueVerif.Proofs.NumLit
 import CueVerif.Proofs.Ident
 namespace CueVerif.C09
@@ -71,13 +72,30 @@ theorem C09_unquote_U_escape_total (q : QuoteInfo) (e : Nat) (he : e = 0x75 ∨ 
     unquoteEscape q e t = .error .syntax :=
   unquoteEscape_U_total q e he t
 
-/-- Multi-line forms (`WithTabIndent(n)`, `WithOptionalTabIndent(n)` on a string with a
-newline), incl. CR, trailing backslash, `"""` followed by '#' runs.  -- OPEN: believed true
-(the harness evaluates it on the implementation and compares `Quote` byte for byte with the
-model for every multi-line form), not proved in Lean. -/
-def C09_roundtrip_multi_stmt : Prop :=
-  ∀ (E : Env), E.Ok → ∀ (f : Form), f.WF → ∀ (s : Bytes), IsBytes s → Representable f s →
-    f.effMultiline s = true → RoundTrips E f s
+/-- Multi-line forms (`WithTabIndent(n)`, and `WithOptionalTabIndent(n)` on a string with a
+newline), any indentation, String/Label/Bytes, any other option: `Unquote(Quote(s)) = s` for
+EVERY representable byte string — incl. CR, trailing backslash, blank lines, leading/trailing
+LF, `"""` followed by '#' runs (the hash count of `requiredHashCount` exceeds every '#' run
+after three or more quotes, so no line of the body starts with the closing delimiter). -/
+theorem C09_roundtrip_multi (E : Env) (hE : E.Ok) (f : Form) (hf : f.WF) (s : Bytes)
+    (hb : IsBytes s) (hr : Representable f s) (hml : f.effMultiline s = true) : RoundTrips E f s :=
+  roundtrip_multi hE f hf s hb hr hml
+
+/-- The literal clause of the property in one statement: EVERY quoting form the library can
+produce (single line, multi-line, any number of '#', ASCII-only, graphic-only) unquotes to
+exactly the original, for EVERY byte string the form can represent. -/
+theorem C09_roundtrip (E : Env) (hE : E.Ok) (f : Form) (hf : f.WF) (s : Bytes)
+    (hb : IsBytes s) (hr : Representable f s) : RoundTrips E f s := by
+  cases hml : f.effMultiline s with
+  | true => exact roundtrip_multi hE f hf s hb hr hml
+  | false => exact roundtrip_single_all hE f hf s hb hr hml
+
+-- non-vacuity: a multi-line bytes form on CR LF, a blank line, `'''#`, an invalid byte, a
+-- trailing backslash and a trailing LF
+example : RoundTrips asciiEnv (bytesForm.withTabIndent 2)
+    [0x61, 0x0D, 0x0A, 0x0A, 0x27, 0x27, 0x27, 0x23, 0xFF, 0x5C, 0x0A] :=
+  C09_roundtrip asciiEnv asciiEnv_ok _ (Or.inr ⟨rfl, rfl⟩) _
+    (by intro b hb; simp at hb; omega) (Or.inl rfl)
 
 /-- `WithASCIIOnly`: every byte of the literal is ASCII — for EVERY form (single line,
 multi-line, optional hashes) and every input. -/
